@@ -6,7 +6,7 @@
    blockedOn (ground truth) is carried by TLC from the call results alone (BO below). *)
 EXTENDS Naturals, Sequences, FiniteSets, TLC, Json, IOUtils
 CONSTANTS Ops, Res, Preemptable, HighPrio, MaxHold, NoOne, Strategy
-VARIABLES owner, hold, active, acquired, blockedOn, edges, order, obs, node, pfail, drift
+VARIABLES owner, hold, active, acquired, blockedOn, edges, order, obs, pri, lockpri, node, pfail, drift
 C == INSTANCE Coordination
 F == ndJsonDeserialize(IOEnv.TRACE_FILE)
 E == [k \in 1..(Len(F) - 1) |-> F[k + 1]]
@@ -18,6 +18,8 @@ PostHold(r) == [q \in Res |-> r.post.hold[q]]
 PostActive(r) == SetOf(r.post.active)
 PostAcq(r) == [o \in Ops |-> SetOf(r.post.acquired[o])]
 PostEdges(r) == {<<e[1], e[2], e[3]>> : e \in SetOf(r.post.edges)}
+PostPri(r) == [o \in Ops |-> r.post.pri[o]]
+PostLockPri(r) == [q \in Res |-> r.post.lockpri[q]]
 (* ground truth after the recorded call, from the previous ground truth and the call's result only *)
 BO(r) ==
   LET a == r.act
@@ -42,6 +44,7 @@ Match(r) == /\ ~r.obs.raised
             /\ owner' = PostOwner(r) /\ hold' = PostHold(r) /\ active' = PostActive(r)
             /\ \A o \in PostActive(r) : acquired'[o] = PostAcq(r)[o]
             /\ edges' = PostEdges(r) /\ blockedOn' = BO(r) /\ obs'.res = r.obs.res
+            /\ pri' = PostPri(r) /\ lockpri' = PostLockPri(r)
             /\ (r.act.op = "watchdog" => obs'.victim = r.obs.victim /\ (r.obs.victim # NoOne => obs'.cyc = r.obs.precyc))
 InCyc(s, R) == \A k \in 1..Len(s) : <<s[k], s[(k % Len(s)) + 1]>> \in R
 PosIn(s, o) == CHOOSE k \in 1..Len(s) : s[k] = o
@@ -69,7 +72,7 @@ Resync(k) ==
   /\ ~ENABLED (DAct(r.act) /\ Match(r))
   /\ drift' = TRUE
   /\ owner' = PostOwner(r) /\ hold' = PostHold(r) /\ active' = PostActive(r) /\ acquired' = PostAcq(r)
-  /\ edges' = PostEdges(r) /\ blockedOn' = BO(r) /\ order' = OrderP(r)
+  /\ edges' = PostEdges(r) /\ blockedOn' = BO(r) /\ order' = OrderP(r) /\ pri' = PostPri(r) /\ lockpri' = PostLockPri(r)
   /\ obs' = [op |-> r.act.op, o |-> r.act.o, r |-> r.act.r, res |-> r.obs.res, cyc |-> r.obs.precyc, victim |-> r.obs.victim]
 Step(k) == /\ node' = k /\ pfail' = {c \in Clauses : ~Holds(c, E[k])}
            /\ (Conform(k) \/ Resync(k))
